@@ -66,7 +66,7 @@ PROPS = {
     ),
     'C05': dict(
         lean=['Props.C05', 'Props.FactsWiring'],
-        streams=['throttle'],
+        streams=['throttle', 'e2e'],
         rule='request/clock schedules in five phase styles (burst at one instant, camera-rate, churn at the tick boundary +-1 ns, long idles, '
              'one-clip refills) with scripted base-recorder failures in 35% of cases; the window monitor checks all O(n^2) windows of each case; '
              'non-trivial = at least one throttled event; distinct by op text',
@@ -106,13 +106,13 @@ PROPS = {
     ),
     'C13': dict(
         lean=['Props.C13', 'Props.C13Parse', 'Props.FactsProc'],
-        streams=['processor'],
+        streams=['processor', 'e2e'],
         rule=PROC_RULE, trusted=PROC_TRUSTED,
         assumptions=PROC_ASSUME['C13'],
     ),
     'C17': dict(
         lean=['Props.C17', 'Props.FactsProc'],
-        streams=['processor'],
+        streams=['processor', 'e2e'],
         project={'processor': r'^< (c\.|t\.|ret|panic)'}, rule=PROC_RULE, trusted=PROC_TRUSTED,
         assumptions=PROC_ASSUME['C17'],
     ),
@@ -144,7 +144,7 @@ PROPS = {
     ),
     'C15': dict(
         lean=['Props.C15', 'Props.FactsProc'],
-        streams=['detector'],
+        streams=['detector', 'e2e'],
         rule=DET_RULE, trusted=DET_TRUSTED,
         assumptions=['LowerLaw: new < bg -> float32(new) - w < float32(bg), true for the non-negative weights that occur', 'the float64 mean is within one count of the exact mean (validated by the monitor, not proved)', 'the clause "background and threshold stored with a recording are those at the trigger" is covered by the e2e stream'],
     ),
